@@ -29,8 +29,10 @@ STR_COLS = ["seqid", "biotype", "name", "strand", "attributes"]
 class QInt(int):
     """int whose text rendering is a variable name: lands verbatim in the f-string SQL"""
 
+    VALUES = {"QSTART": 700001, "QSTOP": 900001}  # what int(x) gives: distinct, recognisable literals (subset() does int(start))
+
     def __new__(cls, name, term):
-        o = int.__new__(cls, 7)
+        o = int.__new__(cls, cls.VALUES.get(name, 7))
         o.qname = name
         o.z3term = term
         return o
@@ -64,7 +66,7 @@ def _capture(db, call):
 
     class _Cur(list):
         def fetchone(self):
-            return [0]
+            return [1]  # COUNT(*): "the table is not empty" (subset() returns early on an empty db)
 
         def fetchall(self):
             return []
@@ -78,7 +80,7 @@ def _capture(db, call):
     type(db)._execute_sql = fake
     try:
         r = call(db)
-        if r is not None and not isinstance(r, int):
+        if r is not None and not isinstance(r, int) and hasattr(r, "__iter__"):
             list(r)
     finally:
         type(db)._execute_sql = orig
@@ -192,7 +194,7 @@ def mk_query_equiv(cls_name, method, _replay=None):
     for r in range(len(fields) + 1):
         for given in itertools.combinations(fields, r):
             for allow_partial in ((False, True) if ("start" in given or "stop" in given) else (False,)):
-                for on_aln in ((False, True) if method != "num_matches" else (False,)):
+                for on_aln in ((False, True) if method not in ("num_matches", "subset") else (False,)):
                     shapes += 1
                     kw = {}
                     for f in given:
@@ -208,6 +210,10 @@ def mk_query_equiv(cls_name, method, _replay=None):
                         kw["allow_partial"] = allow_partial
                     db = _mk_db(cls_name)
                     seen = _capture(db, lambda d: getattr(d, method)(**kw))
+                    if method == "subset":
+                        # len(self) before the per-table selects; subset() converts the window to plain ints, which appear as the two
+                        # recognisable literals: put the variable names back
+                        seen = [(x[0].replace(str(QInt.VALUES["QSTART"]), "QSTART").replace(str(QInt.VALUES["QSTOP"]), "QSTOP"), x[1]) for x in seen if "COUNT(" not in x[0].upper()]
                     want_tables = ["user"] if on_aln else list(table_names)
                     if len(seen) != len(want_tables):
                         return {"status": "cex", "cex": {"given": list(given), "allow_partial": allow_partial, "on_alignment": on_aln, "problem": f"queried {len(seen)} tables, expected {want_tables}"}, "queries": queries}
@@ -230,6 +236,15 @@ def mk_query_equiv(cls_name, method, _replay=None):
                             try:
                                 f = sqlsmt.translate(where, vals, env, _like_model(q))
                             except sqlsmt.SqlParseError as e:
+                                # not in the translator's grammar: is it SQL at all? (real SQLite decides; a statement it rejects makes the
+                                # public call raise, which is a violation for every record)
+                                import sqlite3
+
+                                try:
+                                    probe_sql = sql.replace("QSTART", "0").replace("QSTOP", "1")
+                                    _mk_db(cls_name).db.execute("EXPLAIN " + probe_sql, tuple("x" for _ in (vals or ())))
+                                except sqlite3.OperationalError as se:
+                                    return {"status": "cex", "cex": {"given": sorted(g), "allow_partial": allow_partial, "table": tname, "sql": sql, "invalid_sql": str(se)}, "queries": queries}
                                 return {"status": "inconclusive", "detail": f"cannot translate {sql!r} {vals!r}: {e}"}
                         if not W.reach("end"):
                             solver.push()
@@ -274,6 +289,17 @@ def mk_query_equiv(cls_name, method, _replay=None):
 
 def _replay_query(cls_name, method, cex):
     """real db, real SQLite: insert the model's record, run the model's query, compare with the python linear scan"""
+    if "invalid_sql" in cex:
+        db = _mk_db(cls_name)
+        db.add_feature(seqid="s", biotype="gene", name="n", spans=[(2, 10)], strand="+")
+        kw = {f: {"start": 0, "stop": 15}.get(f, "s") for f in cex["given"] if f != "on_alignment"}
+        try:
+            r = getattr(db, method)(**kw) if method == "num_matches" else getattr(db, method)(allow_partial=cex["allow_partial"], **kw)
+            if r is not None and not isinstance(r, int) and method != "subset":
+                list(r)
+        except Exception as e:  # noqa
+            return {"status": "reproduced", "detail": f"{method}({kw}) raised {type(e).__name__}: {e}"}
+        return {"status": "not_reproduced", "detail": f"{method}({kw}) ran"}
     if "record" not in cex:
         return {"status": "reproduced", "detail": str(cex)}
     db = _mk_db(cls_name)
@@ -296,6 +322,8 @@ def _replay_query(cls_name, method, cex):
         kw["on_alignment"] = True
     if method == "num_matches":
         got = db.num_matches(**kw) > 0
+    elif method == "subset":
+        got = len(db.subset(allow_partial=cex["allow_partial"], **kw)) > 0
     else:
         got = len(list(getattr(db, method)(allow_partial=cex["allow_partial"], **kw))) > 0
     want = _py_oracle(rec, q, given, cex["allow_partial"])
@@ -456,7 +484,7 @@ ENCODED = [
                                            "BasicAnnotationDb / GffAnnotationDb / GenbankAnnotationDb table routing"]),
 ]
 BOUNDS = {
-    "quick": ["all 2^7 subsets of {seqid, biotype, name, strand, attributes, start, stop} x allow_partial x on_alignment, for 3 db classes and 3 query methods",
+    "quick": ["all 2^7 subsets of {seqid, biotype, name, strand, attributes, start, stop} x allow_partial x on_alignment, for 3 db classes and 4 methods (get_features_matching, get_records_matching, num_matches, subset); a statement outside the translator's grammar is handed to real SQLite: if SQLite rejects it, that is the counterexample",
               "one symbolic record; strings unbounded (z3 sequence theory), ints unbounded; record and window non-empty (start < stop), coordinates >= 0",
               "add_feature and GffAnnotationDb.add_records: 1..2 spans (thorough: 3) with arbitrary (also reversed, overlapping, nested, unsorted) non-negative coordinates"],
 }
@@ -504,7 +532,7 @@ def validate(tier):
 def obligations(tier):
     obs = []
     for cls in ("BasicAnnotationDb", "GffAnnotationDb", "GenbankAnnotationDb"):
-        for method in ("get_features_matching", "get_records_matching", "num_matches"):
+        for method in ("get_features_matching", "get_records_matching", "num_matches", "subset"):
             obs.append(Ob(f"where_equiv/{cls}/{method}", __name__, "mk_query_equiv", {"cls_name": cls, "method": method}, kind="direct", timeout=600, group="sql"))
     for n in ((1, 2, 3) if tier == "thorough" else (1, 2)):
         obs.append(Ob(f"add_feature_extremes/n{n}", __name__, "mk_add_feature_extremes", {"nspans": n}, timeout=600, group="insert"))
@@ -513,6 +541,8 @@ def obligations(tier):
 
 
 def classify(name, args, cex, rep):
+    if name.endswith("/subset") and "invalid_sql" in (cex or {}):
+        return "subset:window-only-query-builds-invalid-sql"
     if "num_matches" in name and cex.get("given") == ["attributes"]:
         return "num_matches:attributes-exact-match"
     return None
